@@ -1839,4 +1839,14 @@ func genC17Whole(g *Rng, thorough bool, emit func(Op)) {
 		emit(Op{"op": "kp-build-verify", "class": fmt.Sprintf("fresh-%d", bits), "label": "accept", "pprime": hx(key.pp), "qprime": hx(key.qp),
 			"bases": hxs(genBases(g, key.n, 1+g.intn(4)))})
 	}
+	// base lists as long as those of real issuer keys (Z, S and the R_i: eight and more)
+	for _, nbases := range []int{8 + g.intn(2), 10 + g.intn(8)} {
+		key := genGoodKey(48)
+		emit(Op{"op": "kp-build-verify", "class": fmt.Sprintf("fresh-48-bases-%d", nbases), "label": "accept", "pprime": hx(key.pp), "qprime": hx(key.qp),
+			"bases": hxs(genBases(g, key.n, nbases))})
+		emit(kpStructureOp(fmt.Sprintf("structure-many-bases-%d", nbases), key.n, genBases(g, key.n, nbases)))
+		if !thorough {
+			break
+		}
+	}
 }
